@@ -59,6 +59,15 @@ def parseContent (s : String) : ByteArray :=
         out := out.push 0
       return out
   | ["h", hx] => ba (unhex hx)
+  | [kind, seed, len, total] =>
+    -- "sp" / "sd": `len` bytes as in "g", then zeros up to `total` (a hole in the real file, or written out: the same bytes)
+    if kind == "sp" || kind == "sd" then
+      Id.run do
+        let mut out := genContent seed.toNat! len.toNat!
+        for _ in [0:total.toNat! - len.toNat!] do
+          out := out.push 0
+        return out
+    else ByteArray.empty
   | _ => ByteArray.empty
 
 /-- the checksum of a byte string: the TOTAL BLAKE3 (`DudModel/Blake3Total.lean`), proved equal to the list specification
